@@ -65,7 +65,7 @@ def replay(pid, path):
     return EXIT_OK
 
 
-def reproduces(h, claim, values):
+def reproduces(h, claim, values, symbolic_error=None):
     """Replay a counterexample on the unpatched code with concrete values."""
     from . import explore as ex
     modes = [False] + ([True] if h.exact else [])
@@ -74,8 +74,11 @@ def reproduces(h, claim, values):
         rec = ex.run_concrete(h, values, exact=exact)
         last = rec
         if claim == 'no_unexpected_exception':
-            if rec['status'] == 'error':
+            # the concrete run must fail with the same exception class as the symbolic path did
+            same = symbolic_error is None or (rec.get('error') or '').split(':')[0] == symbolic_error.split(':')[0]
+            if rec['status'] == 'error' and same:
                 return True, rec, exact
+            continue
         if any(s != 'ok' for _, s in rec['claims']):
             return True, rec, exact
         if rec['status'] == 'error':
@@ -174,7 +177,7 @@ def check(pid, tier, seed, only, workers, verbose, write_evidence=True):
             if seen_claims.get(cname, 0) >= 3:
                 continue
             seen_claims[cname] = seen_claims.get(cname, 0) + 1
-            ok, crec, exact = reproduces(h, cname, vals)
+            ok, crec, exact = reproduces(h, cname, vals, rec.get('error'))
             if ok:
                 confirmed += 1
                 fn = os.path.join(HERE, 'replays', '%s_%s_%s_%d.json' % (pid, h.name, cname, seen_claims[cname]))
